@@ -457,6 +457,9 @@ func corr(e *env, seed uint64, n int) {
 		}
 		emit("G", next(), rt.pre[0], rt.pre[1], rt.pre[2], rt.pre[3], obs)
 	}
+	// --- E / M: senc, saiz, saio byte for byte; malformed senc boxes
+	e.sencCases(r, n/4, next)
+	sencMalformed(r, n, next)
 	thirdPartyStruct(e, next)
 	out.Flush()
 }
